@@ -111,6 +111,95 @@ def cancel_rule(prog, rep, up, rec, ctor, cancel, L, armed_kinds):
                       function=cancel, construct="slot-guard:" + show(slot))
 
 
+def slot_empty_rule(prog, rep, up, rec, L):
+    """A recycled registration slot (a cookie field that is re-armed during the request's life) must be known empty
+    whenever a new registration is stored into it: otherwise the earlier registration stays pending with no handle,
+    fires later on a released request, and the request completes twice."""
+    from ..dataflow import Solver
+    u = prog.unit(up)
+    funcs = [f for f in u.funcs if f.file == up]
+    reg_sites = {}      # field -> [(func, assign elem)]
+    nulls = {}          # field -> [(func, elem)]
+    for f in funcs:
+        for e in f.all_elems():
+            if e.is_assign and e.op == "=" and norm(e.kid(0))[0] == ".":
+                fld = norm(e.kid(0))[2]
+                r = e.kid(1).strip() if e.kid(1) is not None else None
+                if r is not None and r.cls == "CallExpr" and r.callee in lin.REARM:
+                    reg_sites.setdefault(fld, []).append((f, e))
+                elif norm(e.kid(1)) == ("c", 0):
+                    nulls.setdefault(fld, []).append((f, e))
+    n = 0
+    for fld, sites in reg_sites.items():
+        # recycled: cleared by some handler-like function (not only by the constructor)
+        if not any(f.name in L.handlers for f, _ in nulls.get(fld, [])):
+            continue
+        memo = {}
+
+        def analyse(f):
+            """(requires_empty_at_entry, [violating call elems]) for f."""
+            if f.name in memo:
+                return memo[f.name]
+            memo[f.name] = (False, [])
+
+            def transfer(st, e):
+                if e.is_assign and e.op == "=" and norm(e.kid(0))[0] == "." and norm(e.kid(0))[2] == fld:
+                    r = e.kid(1).strip()
+                    if r is not None and r.cls == "CallExpr" and r.callee in lin.REARM:
+                        return "armed"
+                    if norm(e.kid(1)) == ("c", 0):
+                        return "empty"
+                return st
+            def refine(st, cond, kind):
+                if kind in (True, False):
+                    for op, Lh, R, _, _ in cond_atoms(cond, kind):
+                        if op == "==" and R == ("c", 0) and Lh[0] == "." and Lh[2] == fld:
+                            return "empty"
+                return st
+            s = Solver(f, "entry", transfer, refine, lambda a, b: a if a == b else ("entry" if "entry" in (a, b) and "armed" not in (a, b) else "armed")).run()
+            need = [False]
+            viol = []
+
+            def visit(e, st):
+                if e.is_assign and e.op == "=" and norm(e.kid(0))[0] == "." and norm(e.kid(0))[2] == fld:
+                    r = e.kid(1).strip()
+                    if r is not None and r.cls == "CallExpr" and r.callee in lin.REARM:
+                        if st == "entry":
+                            need[0] = True
+                        elif st == "armed":
+                            viol.append(e)
+                if e.cls == "CallExpr" and e.callee and u.func(e.callee) is not None and u.func(e.callee).file == up and e.callee != f.name:
+                    g = u.func(e.callee)
+                    if lin._cookie_arg(e, lin.cookie_vars(f, rec)) is None:
+                        return
+                    rq, _ = analyse(g)
+                    if rq:
+                        if st == "entry":
+                            need[0] = True
+                        elif st == "armed":
+                            viol.append(e)
+            s.visit(visit)
+            memo[f.name] = (need[0], viol)
+            return memo[f.name]
+        for f in funcs:
+            if not lin.cookie_vars(f, rec):
+                continue
+            rq, viol = analyse(f)
+            # entry points that cannot assume anything: event handlers (registered callbacks) and the constructor
+            is_entry = any(norm(a)[0] == "fn" and norm(a)[1] == f.name for g in funcs for c in g.calls() for a in c.args if a is not None) or not f.static
+            n += 1
+            for e in viol:
+                rep.bad("SLOT-empty", "%s may still hold a registration when %s re-arms it" % (fld, f.name), e.where,
+                        "a registration is stored into the slot (directly or by the callee) while an earlier one may still be pending", function=f.name, construct="slot-empty:" + fld)
+            if is_entry and rq:
+                rep.bad("SLOT-empty", "%s reaches a re-registration of %s without cancelling/clearing it first" % (f.name, fld), f.loc,
+                        "on some path from this entry point a new registration is stored into %s (possibly by a callee) while the previous one may still be pending: "
+                        "the stale event later fires on a released request" % fld, function=f.name, construct="slot-empty:" + fld)
+            elif not viol:
+                rep.ok("SLOT-empty", "%s: %s is empty whenever it is re-armed" % (f.name, fld), f.loc)
+    return n
+
+
 def _may_follow(f, a, b):
     """Can b execute after a?"""
     if a.block.id == b.block.id:
@@ -344,6 +433,7 @@ def run(tier):
         for up, (rec, rel, ctor, cancel) in UNITS.items():
             L, kinds = lin_rule(prog, rep, up, rec, rel)
             cancel_rule(prog, rep, up, rec, ctor, cancel, L, kinds)
+            slot_empty_rule(prog, rep, up, rec, L)
             if up in SYSCALL:
                 n2_n3(prog, rep, up, L)
             if up in ("network/network_read.c", "network/network_write.c"):
